@@ -36,13 +36,16 @@ type HistCase struct {
 func genHist(t *rapid.T) HistCase {
 	var c HistCase
 	maxLogN := 7
-	if h.Thorough() && rapid.IntRange(0, 9).Draw(t, "largeN") == 0 {
-		maxLogN = 12
+	if rapid.IntRange(0, 9).Draw(t, "largeN") == 0 {
+		maxLogN = 10 // a tenth of the cases: beyond the 1024-byte refill buffer many times over
+		if h.Thorough() {
+			maxLogN = 12
+		}
 	}
 	kind := []string{"uniform", "gauss", "gauss", "ternaryP", "ternaryH", "ternaryH"}[rapid.IntRange(0, 5).Draw(t, "distKind")]
 	c.Ring = genRing(t, 4, maxLogN, 4, false)
 	c.Dist = genDist(t, kind, c.Ring.N())
-	if kind == "gauss" && c.Dist.bigPath() && rapid.IntRange(0, 3).Draw(t, "bigRing") != 0 {
+	if kind == "gauss" && (c.Dist.bigPath() || c.Dist.Bound > 0x1p58) && rapid.IntRange(0, 3).Draw(t, "bigRing") != 0 {
 		// the big-number path is only decidable when the modulus exceeds twice the bound: prefer large limbs
 		c.Ring = genRing(t, 4, maxLogN, 4, true)
 	}
